@@ -31,18 +31,77 @@ class Sched:
         self.record = None        # optional list collecting (kind, name) of every yield point
         self.dead = False
         self.failed = None        # exception that ended an injected operation (the primary's code may have swallowed it)
+        self.susp = None          # a suspendable injected operation that has started and not finished yet
 
-    def add(self, at, fn, tid=1, name=None):
+    def run_injected(self):
+        """Primary -> suspended operation: let it run until it finishes or has to wait again."""
+        su = self.susp
+        if su is None:
+            return
+        was_busy = self.busy
+        self.busy = True
+        self.cur = su.tid
+        su.go_inj.release()
+        su.go_pri.acquire()
+        self.cur = 0
+        self.busy = was_busy
+        if su.done:
+            self.susp = None
+            if su.exc is not None:
+                self.dead = True
+                self.busy = True
+                self.failed = su.exc
+                raise su.exc
+            self.ran.append(su.opname)
+
+    def finish_suspended(self):
+        """After the primary is through: a still suspended operation runs to its end (everything it waited for is free).
+        Returns False if it cannot (it waits for something nobody will release)."""
+        guard = 0
+        while self.susp is not None:
+            guard += 1
+            if guard > 50:
+                return False
+            self.run_injected()
+        return True
+
+    def add(self, at, fn, tid=1, name=None, suspendable=False, pause_at=None, resume_at=None):
+        """suspendable=True: the operation runs in a helper thread under strict hand-over (exactly one of the two threads
+        runs at any time).  Where it would have to wait for a lock or a condition it is SUSPENDED instead of abandoning
+        the path; the primary goes on and hands control back when it releases what the operation waits for.  This
+        covers schedules in which both threads are in the middle of an operation."""
+        if suspendable:
+            fn = _Susp(self, tid, fn)
+            # pause_at (a CONCRETE int, decided by the harness in the primary thread): the operation also stops of its own
+            # accord at its pause_at-th own yield point and goes on at the primary's yield point resume_at (symbolic)
+            fn.pause_at = pause_at
+            fn.resume_at = resume_at
         self.pending.append((at, tid, fn, name or getattr(fn, '__name__', 'op')))
 
     def point(self, kind, name=None):
         if self.busy:
+            su = self.susp
+            if su is not None and su.pause_at is not None and not su.paused_once:
+                import threading
+                if threading.current_thread() is su.thread:
+                    # a yield point of the suspendable operation itself
+                    k = su.n
+                    su.n += 1
+                    if k == su.pause_at:
+                        su.paused_once = True
+                        su.pause_where = (kind, name)
+                        su.suspend(('pause', None))
             return
         i = self.n
         self.n += 1
         self.npoints = self.n
         if self.record is not None:
             self.record.append((kind, name))
+        su = self.susp
+        if su is not None and isinstance(su.waiting, tuple) and su.waiting[0] == 'pause':
+            if api.decide(lambda: i == su.resume_at):
+                self.trace.append((i, kind, name, 'resume ' + str(su.opname)))
+                self.run_injected()
         while self.pending:
             at, tid, fn, opname = self.pending[0]
             if not api.decide(lambda: i == at):
@@ -53,6 +112,16 @@ class Sched:
             self.cur = tid
             self.busy = True
             try:
+                if isinstance(fn, _Susp):
+                    self.cur = prev
+                    self.busy = False
+                    self.susp = fn
+                    fn.opname = opname
+                    fn.start()
+                    self.run_injected()
+                    if self.susp is None:
+                        self.ran.append(opname)
+                    return
                 fn()
                 self.ran.append(opname)
             except BaseException as ex:
@@ -72,6 +141,12 @@ class Sched:
 
     def stop(self):
         self.busy = True
+        if self.susp is not None:
+            # never leave the helper thread hanging: it is woken up to give up at its suspension point
+            su, self.susp = self.susp, None
+            su.abandon = True
+            su.go_inj.release()
+            su.go_pri.acquire(timeout=5)
         f, self.failed = self.failed, None
         if f is not None:
             # An injected operation did not complete.  If the exception was passed on by the primary's code the harness
@@ -81,6 +156,61 @@ class Sched:
                 api.assume(False)             # it would have had to wait: not an atomic step at this point
             if isinstance(f, Exception):
                 raise f                       # a failure of the injected operation itself must not get lost
+
+
+class _Susp:
+    def __init__(self, sched, tid, fn):
+        import threading
+        self.sched = sched
+        self.tid = tid
+        self.fn = fn
+        self.opname = None
+        self.go_inj = threading.Semaphore(0)
+        self.go_pri = threading.Semaphore(0)
+        self.done = False
+        self.exc = None
+        self.waiting = None       # the lock (or ('cond', condition) / ('pause', None)) the operation is suspended on
+        self.pause_at = None
+        self.resume_at = None
+        self.paused_once = False
+        self.pause_where = None
+        self.n = 0                # own yield points seen so far
+        self.abandon = False
+        self.thread = None
+
+    def start(self):
+        import threading
+        self.thread = threading.Thread(target=self._run, daemon=True, name='zverif-injected')
+        self.thread.start()
+
+    def _run(self):
+        self.go_inj.acquire()
+        try:
+            if not self.abandon:
+                self.fn()
+        except BaseException as ex:
+            self.exc = ex
+        finally:
+            self.done = True
+            self.go_pri.release()
+
+    def suspend(self, on):
+        """Called in the helper thread: hand control to the primary until it hands it back."""
+        self.waiting = on
+        self.go_pri.release()
+        self.go_inj.acquire()
+        self.waiting = None
+        if self.abandon:
+            raise Blocked('suspended operation abandoned with the path')
+
+
+def _me_suspendable():
+    """The suspendable operation object if the calling real thread is its helper thread."""
+    import threading
+    su = SCHED.susp
+    if su is not None and threading.current_thread() is su.thread:
+        return su
+    return None
 
 
 SCHED = Sched()
@@ -102,13 +232,39 @@ class SLock:
     def _pt(self, kind):
         SCHED.point(kind, self._kind)
 
+    def _wait_for_free(self, me, reentrant):
+        """The lock is held by another logical thread.  Suspend / switch if a suspendable operation is involved, else
+        the schedule cannot be completed atomically (Blocked)."""
+        while self.owner is not None and not (reentrant and self.owner == me):
+            su = _me_suspendable()
+            if su is not None:
+                su.suspend(self)                       # injected operation waits: the primary goes on
+                continue
+            su = SCHED.susp
+            if su is not None and me == 0 and self.owner == su.tid and su.waiting is not None:
+                w = su.waiting[1] if isinstance(su.waiting, tuple) else su.waiting
+                if w is not None and w.owner == 0:
+                    raise Blocked('deadlock: primary wants %s held by the suspended operation, which waits for the primary' % self._kind)
+                SCHED.run_injected()                   # let the holder go on until it releases or finishes
+                continue
+            raise Blocked('%s held by thread %r, wanted by %r' % (self._kind, self.owner, me))
+
+    def _released(self):
+        """After a release by the primary: a suspended operation that waits for this lock gets its turn."""
+        su = SCHED.susp
+        if su is None or SCHED.cur != 0 or _me_suspendable() is not None:
+            return
+        w = su.waiting
+        if w is self or (isinstance(w, tuple) and w[1] is self and getattr(self, '_notified', False)):
+            SCHED.run_injected()
+
     def acquire(self, blocking=True, timeout=-1):
         self._pt('acquire')
         me = SCHED.cur
         if self.owner is not None:
             if not blocking:
                 return False
-            raise Blocked('%s held by thread %r, wanted by %r' % (self._kind, self.owner, me))
+            self._wait_for_free(me, False)
         self.owner = me
         self.count = 1
         return True
@@ -119,6 +275,7 @@ class SLock:
         self.owner = None
         self.count = 0
         self._pt('release')
+        self._released()
 
     def locked(self):
         return self.owner is not None
@@ -140,7 +297,7 @@ class SRLock(SLock):
         if self.owner is not None and self.owner != me:
             if not blocking:
                 return False
-            raise Blocked('%s held by thread %r, wanted by %r' % (self._kind, self.owner, me))
+            self._wait_for_free(me, True)
         self.owner = me
         self.count += 1
         return True
@@ -152,6 +309,7 @@ class SRLock(SLock):
         if self.count == 0:
             self.owner = None
             self._pt('release')
+            self._released()
 
     def _is_owned(self):
         return self.owner == SCHED.cur
@@ -166,19 +324,32 @@ class SCondition(SRLock):
     def wait(self, timeout=None):
         if not self._is_owned():
             raise RuntimeError('cannot wait on un-acquired lock')
+        su = _me_suspendable()
+        if su is not None:
+            # a suspendable operation really waits: give the lock up, let the primary go on, come back after a notify
+            me, count = self.owner, self.count
+            self.owner, self.count = None, 0
+            self._notified = False
+            su.suspend(('cond', self))
+            self._wait_for_free(me, True)
+            self.owner, self.count = me, count
+            return True
         # nobody else can run while we wait inside an atomic step: the predicate cannot change
         raise Blocked('Condition.wait by thread %r' % SCHED.cur)
 
     def wait_for(self, predicate, timeout=None):
         if not self._is_owned():
             raise RuntimeError('cannot wait on un-acquired lock')
-        if predicate():
-            return True
-        raise Blocked('Condition.wait_for by thread %r' % SCHED.cur)
+        while not predicate():
+            if _me_suspendable() is None:
+                raise Blocked('Condition.wait_for by thread %r' % SCHED.cur)
+            self.wait()
+        return True
 
     def notify(self, n=1):
         if not self._is_owned():
             raise RuntimeError('cannot notify on un-acquired lock')
+        self._notified = True
 
     def notify_all(self):
         self.notify()
